@@ -3,6 +3,7 @@
 From Coq Require Import Bool NArith List Lia Arith.
 Import ListNotations.
 From RsddV Require Import Generated.Constants Model.Lru Proofs.Lru.
+From RsddV Require Import Base.Bdd Model.BddOps Model.BddProg Proofs.BddIte Proofs.BddProg Proofs.BddCanonProg.
 
 (* For every hash function (all collision patterns), every initial capacity and every
    sequence of insert/get calls that hashes a key with that function: every get answers
@@ -30,6 +31,27 @@ Theorem C16_regrow_never : forall t pre suf,
                                       | None => acc end) pre (lru_new (S (cap t)))) = false.
 Proof. intros t pre suf. apply regrow_never. unfold grow_num, grow_den. lia. Qed.
 Print Assumptions C16_regrow_never.
+
+(* Consequently: a builder returns the same canonical diagrams whatever its apply cache
+   remembers or forgets -- "caches every application", "lossy cache of any capacity" and every
+   other behaviour are instances of the forgetting stream. *)
+Theorem C16_cache_transparent : forall rem1 rem2 o ops st1 st2,
+  wf_order o ->
+  run_prog rem1 (bstate_init o) ops = Some st1 ->
+  run_prog rem2 (bstate_init o) ops = Some st2 ->
+  bpool st1 = bpool st2.
+Proof. exact prog_cache_transparent. Qed.
+Print Assumptions C16_cache_transparent.
+
+(* one if-then-else: same result from any two sound cache states and forgetting streams *)
+Theorem C16_ite_cache_transparent : forall level (level_inj : forall u v, level u = level v -> u = v) L
+        (rem1 rem2 : nat -> bool) fuel1 fuel2 s1 s2 f g h,
+  WF level L 0 f -> WF level L 0 g -> WF level L 0 h ->
+  csound level L s1 -> csound level L s2 -> L < fuel1 -> L < fuel2 ->
+  exists r s1' s2', ite_m level rem1 fuel1 s1 f g h = Some (r, s1') /\
+                    ite_m level rem2 fuel2 s2 f g h = Some (r, s2').
+Proof. exact Proofs.BddOps.ite_cache_transparent. Qed.
+Print Assumptions C16_ite_cache_transparent.
 
 (* non-vacuity: a colliding history with an overwrite and a growth, hashes consistent *)
 Example C16_nonvacuous :
